@@ -36,7 +36,7 @@ EXTS = {"amsmath", "attrs_image", "attrs_inline", "attrs_block", "colon_fence", 
 
 POOL = [
     None, True, False, 0, 1, 7, 8, -1, 1.5, "", "x", "dollarmath", "myst_parser.config.main._test_slug_func", "no.such.func", "nodots",
-    "myst_parser.config.main.no_such_attr", [], ["x"], ["dollarmath"], ["dollarmath", "nope"], [1], ("a", "b"), ["{", "}"], ["ab", "c"], {"x"}, {"dollarmath"},
+    "myst_parser.config.main.no_such_attr", "myst_parser.__version__", "myst_parser.config.main.MdParserConfig.words_per_minute", [], ["x"], ["dollarmath"], ["dollarmath", "nope"], [1], ("a", "b"), ["{", "}"], ["ab", "c"], {"x"}, {"dollarmath"},
     {}, {"x": "y"}, {"x": 1}, {"x": None}, {1: "y"}, {"http": {"url": "u", "title": "t", "classes": ["c"]}}, {"http": {"url": 1}},
     {"http": {"classes": "abc"}}, {"http": {"classes": [1]}}, {"http": {"title": 2}}, {"http": 5}, {"http": 0}, {"http": False}, {"http": []}, {"http": 0.0}, {"k": ["u", None]}, {"k": ["u", "p"]}, {"k": ["u"]}, {"k": [1, None]},
     {"k": ["u", 3]}, {"k": "u"},
